@@ -417,3 +417,12 @@ package calendar
 //@     assert(1 <= llen(l) && llen(l) <= 7)
 //@     f := w.GetFirstDayInMonth()
 //@     assert(f != nil && f.month == w.month)
+
+//@ # month-separated stepping moves to a different week (one position along (month, week 1..k), (next month, week 1..))
+//@ ghost func weekNextSeparateMoves(w *SolarWeek) [C15]
+//@   requires weekOK(w) && jdnInRange(jdn(w.year, w.month, w.day)-40) && jdnInRange(jdn(w.year, w.month, w.day)+40)
+//@   body
+//@     v := w.Next(1, true)
+//@     assert(v != nil && v.start == w.start)
+//@     assert(jdn(v.year, v.month, v.day) > jdn(w.year, w.month, w.day))
+//@     assert(jdn(v.year, v.month, v.day) <= jdn(w.year, w.month, w.day)+7)
